@@ -147,8 +147,12 @@ def rule_open(m):
                     path = strip_cast(path[2][0] if path[0] == 'ctor' else path[2])
                 if path[0] == 'mcall' and path[1].endswith(('::c_str', '::data')):
                     path = strip_cast(path[2])
+                is_opener = False
                 if path[0] == 'call' and path[1].startswith(IO):
-                    pass        # (an opening helper: examined below)
+                    gs = m.by_tname.get(path[1], [])
+                    is_opener = any('stream' in (g_.unit.decl(g_.decl).get('crtype', '') or '') for g_ in gs)
+                if is_opener:
+                    pass        # (an opening helper that returns the stream: examined below)
                 elif path != fname[0]:
                     why = 'the stream is opened on `%s`, a name computed from the caller\'s file name and not that name itself: ' \
                           'calls with distinct file names can end up writing the same file, and an observer of the documented ' \
